@@ -152,6 +152,7 @@ def run(case):
         if "disp" in probe:
             out["disp"] = {k: hx(tube.results[k][: last + 1]) for k in tube.results if k.startswith("disp")}
         if "volumes" in probe:
+            out["element_volumes"] = hx(tube.element_volumes())
             out["dx"] = hx(state.basis.dx)
             if state.ndim == 1:
                 out["rq"] = hx(state.basis.interpolate(state.mesh.p[0]).value[0])
